@@ -98,7 +98,17 @@ def run(tier, rep):
             hl.append('2 dbd %s 0 %d' % (n, m))
     hl += ['2 dbd Nd150 3 1', '2 dbd Mo100 2 1', '2 bkg Co60', '2 bkg Bi207+Pb207m', '2 bkg Bi214+Po214', '2 bkg Tl208', '2 bkg Co60 0 0 -1 -1 MDL']
     open(hcfg, 'w').write('\n'.join(hl) + '\n')
-    jobs = [('histories', 'checks/c07.cc', ['--cfgfile', hcfg, '--long', '100' if q else '2000'], False), ('mdl', 'checks/c10.cc', [] if q else ['--full'], False), ('reader', 'checks/c11.cc', ['--nmax', '3' if q else '5'], True), ('protocol', 'checks/c09.cc', ['--depth', '5' if q else '6'], False)]
+    # the gA sampler on a handful of synthetic datasets (decoder, both sampling methods, reuse across datasets)
+    import c14 as _c14
+    garoot = os.path.join(dd, 'gads')
+    ganames = []
+    for nm, rows, emin, emax in (('g_a', [[1.0, 2.0, 1.0], [2.0, 0.5], [9.0]], 0.1, 1.1), ('g_b', [[1.0, 1e-6], [1e3]], 0.01, 1.0), ('g_c', _c14.shapes(4)['nines-rows'], 0.1, 2.9),
+                                 ('g_d', _c14.shapes(5)['ridge'], 0.01, 1.0)):
+        if _c14.build(garoot, nm, rows, emin, emax):
+            ganames.append(nm)
+    galist = os.path.join(dd, 'ga.list')
+    open(galist, 'w').write('\n'.join(ganames) + '\n')
+    jobs = [('ga', 'checks/c14.cc', ['--list', galist, '--root', garoot], False), ('histories', 'checks/c07.cc', ['--cfgfile', hcfg, '--long', '100' if q else '2000'], False), ('mdl', 'checks/c10.cc', [] if q else ['--full'], False), ('reader', 'checks/c11.cc', ['--nmax', '3' if q else '5'], True), ('protocol', 'checks/c09.cc', ['--depth', '5' if q else '6'], False)]
     with cf.ThreadPoolExecutor(4) as ex:
         futs = [ex.submit(side, n, s_, a, 3000, nd) for n, s_, a, nd in jobs]
         for f in futs:
